@@ -18,6 +18,9 @@ RULE = ("case = well-formed workflow (2-6, thorough 9 targets) + file ticks + ba
         "exactly those, once each; (5) after status and dry-run the file tree is byte- and mtime-identical, state files "
         "semantically identical and the scheduler received no submit/cancel command. Non-trivial: the state has >=1 "
         "in-flight and >=1 failed-or-cancelled target and the filter selects a proper non-empty subset. "
+        ""
+        "Also: records made with hashing on, then hashing switched off through the CLI (previews must leave "
+        "the records alone); invocation styles of project.Project. "
         "Distinct = SHA-1 of canonical case JSON.")
 ASSUMPTIONS = [
     "simulated scheduler CLIs (vlib/simsched.py); backend states forced directly after a real first run",
